@@ -5,6 +5,7 @@ package tb
 import (
 	"fmt"
 	"sort"
+	"strings"
 	"testing/synctest"
 	"time"
 
@@ -25,37 +26,66 @@ type sched struct {
 	maxPend  int
 	branched int
 	stuck    string
-	// filter restricts where delivery-order choices are offered (nil = everywhere)
-	choose bool
+	// choose: offer scheduling choices to the explorer (else always the canonical first)
+	choose     bool
+	gates      *gateSet // SQL / mutex gates of store/sqlite.go (C20), nil otherwise
+	lastThread int64
+	trace      *[]string
 }
 
 type pend struct {
-	bus int
-	d   nats.PendingDelivery
+	bus    int
+	d      nats.PendingDelivery
+	gate   *gateOp
+	thread int64
 }
 
+func (p pend) String() string {
+	if p.gate != nil {
+		return fmt.Sprintf("g%d:%s %s", p.thread, p.gate.kind, p.gate.detail)
+	}
+	return fmt.Sprintf("g%d:deliver %s", p.thread, p.d.String())
+}
+
+// pending lists the enabled transitions in canonical order: the thread that
+// ran last first (continuing it is not a preemption), then SQL/mutex gates in
+// arrival order, then message deliveries oldest first.
 func (s *sched) pending() []pend {
 	var out []pend
-	for i, b := range s.buses {
-		for _, d := range b.PendingDeliveries() {
-			out = append(out, pend{i, d})
+	var late []pend // driver gates (e.g. shutdown): by default after everything else
+	if s.gates != nil {
+		for _, g := range s.gates.list() {
+			if strings.HasPrefix(g.kind, "driver.") {
+				late = append(late, pend{gate: g, thread: g.gid})
+				continue
+			}
+			out = append(out, pend{gate: g, thread: g.gid})
 		}
 	}
-	sort.SliceStable(out, func(a, b int) bool {
-		if out[a].d.Seq != out[b].d.Seq {
-			return out[a].d.Seq < out[b].d.Seq
+	var dl []pend
+	for i, b := range s.buses {
+		for _, d := range b.PendingDeliveries() {
+			dl = append(dl, pend{bus: i, d: d, thread: d.Thread})
 		}
-		return out[a].bus < out[b].bus
+	}
+	sort.SliceStable(dl, func(a, b int) bool {
+		if dl[a].d.Seq != dl[b].d.Seq {
+			return dl[a].d.Seq < dl[b].d.Seq
+		}
+		return dl[a].bus < dl[b].bus
 	})
+	out = append(out, dl...)
+	sort.SliceStable(out, func(a, b int) bool {
+		return out[a].thread == s.lastThread && out[b].thread != s.lastThread
+	})
+	out = append(out, late...)
 	if len(out) > s.maxPend {
 		s.maxPend = len(out)
 	}
 	return out
 }
 
-// step grants one pending delivery (if any) and returns whether it did.
-// extra > 0 offers that many additional alternatives after the deliveries
-// (returned as a negative index -1-k when chosen).
+// step grants one enabled transition (if any) and returns whether it did.
 func (s *sched) step(extra int, label string) (granted bool, extraChoice int) {
 	synctest.Wait()
 	p := s.pending()
@@ -71,7 +101,15 @@ func (s *sched) step(extra int, label string) (granted bool, extraChoice int) {
 	if c >= len(p) {
 		return false, c - len(p)
 	}
-	s.buses[p[c].bus].Grant(p[c].d)
+	if s.trace != nil {
+		*s.trace = append(*s.trace, p[c].String())
+	}
+	s.lastThread = p[c].thread
+	if p[c].gate != nil {
+		s.gates.grant(p[c].gate)
+	} else {
+		s.buses[p[c].bus].Grant(p[c].d)
+	}
 	s.grants++
 	s.x.Step(1)
 	return true, -1
